@@ -108,6 +108,28 @@ CLAIMED = {
         note='Trusted: Coq kernel, translator (mode tables, charset tables), extraction, harness with catch_unwind; allocation failure and '
              'stack exhaustion outside the model. No axioms.',
         technique='Coq proof: explicit panic outcomes + bounds/termination invariants (full for data/string decoder and bitmap parser; RS decoder partial) + debug/release differential correspondence'),
+    'C13': dict(
+        text='Theorems (Coq, axiom-free): C13_plan_modes_enabled -- every mode named by a plan of the optimiser is enabled, for every input, list, '
+             'mode set, start mode (enabled or not) and every admissible sort (invariant over the planner loop, nothing about costs); '
+             'C13_latch_source / C13_fallback_is_ascii -- in the encoder the latch to be written is set in exactly one place and is the latch of a '
+             'mode of the plan, the end-of-data fallback only ever selects ASCII. PARTIAL: that the codewords written by the six mode encoders '
+             'contain no other value a reference decoder reads as a latch is the stream-level statement (C02) and is not yet a theorem; the '
+             'check evaluates it on every case: the output for every one of the 63 non-empty mode subsets is parsed by the independent '
+             'mode-tracking decoder tools/props/refdec.py and its latches intersected with the disabled set. Model tied by correspondence.',
+        design_ref='DESIGN.md 6/C13',
+        note='Trusted: Coq kernel, translator (flag bits, latch codewords), extraction, harness, sort-trace hook; refdec.py as independent reading of the standard. No axioms.',
+        technique='Coq proof: planner loop invariant (modes of every candidate plan are enabled) + encoder latch-source lemma; per-case reference-decoder oracle for the stream-level residue'),
+    'C18': dict(
+        text='Theorem C18_plan_shape (Coq, axiom-free): every plan returned by optimize -- any input, symbol list, mode set, start mode, number of '
+             'codewords already written, any sort returning elements of its input (proved for both sort instances used) -- names only enabled '
+             'modes, has non-increasing positions starting at most at the input length and ending at 0. PARTIAL: the agreement between the '
+             'planner\'s price and what the six mode encoders write (latches = planned non-ASCII modes with characters; encoder never needs a '
+             'larger symbol than predicted) is not a theorem; it is evaluated on every case of the run from the implementation itself: '
+             'data::encodation_plan vs the latches the reference decoder finds in data::encode_data\'s output, and the symbol vs the one '
+             'predicted from the selected plan\'s cost (hook). One disagreement class found on the pinned tree was repaired (fix: commit).',
+        design_ref='DESIGN.md 6/C18',
+        note='Trusted: Coq kernel, extraction, harness, hooks (selected cost, sort trace); refdec.py. No axioms.',
+        technique='Coq proof: planner loop invariant for the plan shape; per-case agreement oracle (plan vs reference-decoded latches vs predicted size) on model-tied implementation runs'),
 }
 
 PENDING_REASON = 'check not built yet in this round (work proceeds in the order of DESIGN.md section 11); not claimed until its quick command exists'
